@@ -349,7 +349,7 @@ def search_kw(ck: Check) -> None:
     camp = ck.campaign("search: keyword-only written without the option, targets below the bound, kinds named by version.refutekw first")
     t0 = time.time()
     rng = ck.rng.fork("search-kw")
-    kinds = list(e2e.MODEL_KINDS)
+    kinds = ["dataclasses.dataclass"] + [kd for kd in e2e.MODEL_KINDS if kd != "dataclasses.dataclass"]
     try:
         rep = ck.driver.run(["version.refutekw"])[0]
         if rep.startswith("ok "):
@@ -410,6 +410,14 @@ def shrink_doc(inp: dict, want: dict) -> dict | None:
             del h[name]
             if isinstance(t["doc"].get("properties"), dict):
                 t["doc"]["properties"] = {k_: v for k_, v in t["doc"]["properties"].items() if not str(v.get("$ref", "")).endswith("/" + name)}
+            if still_fails(t, want):
+                cur = t
+    if isinstance(cur["doc"].get("properties"), dict):
+        for name in sorted(cur["doc"]["properties"]):
+            t = json.loads(json.dumps(cur))
+            del t["doc"]["properties"][name]
+            if isinstance(t["doc"].get("required"), list):
+                t["doc"]["required"] = [r for r in t["doc"]["required"] if r != name]
             if still_fails(t, want):
                 cur = t
     return cur
